@@ -8,6 +8,7 @@ import (
 	"fmt"
 	"os"
 	"path/filepath"
+	"reflect"
 	"regexp"
 	"strings"
 	"testing"
@@ -33,6 +34,7 @@ type c17Case struct {
 	WantVal  string `json:"want_val,omitempty"`
 	HasVal   bool   `json:"has_val,omitempty"`
 	Why      string `json:"why,omitempty"`
+	Defined  bool   `json:"defined,omitempty"` // the variable is set (possibly to the empty string) in some layer
 }
 
 var nameRe = regexp.MustCompile(`^[a-z0-9][a-z0-9_-]*$`)
@@ -66,6 +68,7 @@ func (cs *c17Case) reference(dot1, dot2 map[string]string) {
 	}
 	if cs.Var != "" {
 		cs.WantVal, cs.HasVal = env[cs.Var], true
+		_, cs.Defined = env[cs.Var]
 	}
 	switch {
 	case cs.ExplicitName != "":
@@ -144,7 +147,11 @@ func buildC17(dir string, explicit int, cpnSrc int, cpnValid bool, fileCfg int, 
 	dot1, dot2 := map[string]string{}, map[string]string{}
 	cpn := "from-env_9"
 	if !cpnValid {
-		cpn = "From.Env"
+		// not in normal form, in different ways (surrounding white space is part of a value)
+		cpn = []string{"From.Env", "from-env_9 ", " from-env_9", "from env", "from-env_9\t"}[(len(dir)+fileCfg+cpnSrc)%5]
+		if cpnSrc == 3 {
+			cpn = "From.Env" // .env values are trimmed by the dotenv grammar
+		}
 	}
 	switch cpnSrc {
 	case 1:
@@ -179,10 +186,10 @@ func buildC17(dir string, explicit int, cpnSrc int, cpnValid bool, fileCfg int, 
 	if varMask != 0 {
 		cs.Var = "C17_VAR"
 		if varMask&1 != 0 {
-			cs.ExplicitEnv["C17_VAR"] = "from-explicit"
+			cs.ExplicitEnv["C17_VAR"] = "from-explicit " // (with a trailing space: values are taken verbatim)
 		}
 		if varMask&2 != 0 {
-			cs.OSEnv["C17_VAR"] = "from-os"
+			cs.OSEnv["C17_VAR"] = " from-os"
 		}
 		if defaultEnv {
 			// a single default .env: a later line wins over an earlier one
@@ -276,7 +283,7 @@ func c17Check(c *Ctx, cs c17Case) *Failure {
 		}
 		doc += fmt.Sprintf("services:\n  svc%d:\n    image: busybox\n    labels:\n      name: \"${COMPOSE_PROJECT_NAME}\"\n", i)
 		if cs.Var != "" && i == 0 {
-			doc += "      val: \"${" + cs.Var + ":-UNSET}\"\n"
+			doc += "      val: \"${" + cs.Var + "-UNSET}\"\n"
 		}
 		p := filepath.Join(dir, fmt.Sprintf("compose-%d.yaml", i))
 		_ = os.WriteFile(p, []byte(doc), 0o644)
@@ -358,6 +365,15 @@ func c17Check(c *Ctx, cs c17Case) *Failure {
 		gotEnvName = p.Environment["COMPOSE_PROJECT_NAME"]
 		gotLabel = p.Services["svc0"].Labels["name"]
 		gotVal = p.Services["svc0"].Labels["val"]
+		// the same options value loads the same project again
+		p2, err := po.LoadProject(context.Background())
+		if err != nil {
+			return failf("c17:second-load-of-same-options-fails", "LoadProject succeeded, a second call on the same ProjectOptions fails: %v", err)
+		}
+		if p2.Name != p.Name || !reflect.DeepEqual(p2.Environment, p.Environment) || !reflect.DeepEqual(p2.Services["svc0"].Labels, p.Services["svc0"].Labels) {
+			return failf("c17:second-load-of-same-options-differs", "a second LoadProject on the same ProjectOptions gives name %q environment %v labels %v, the first gave %q %v %v",
+				p2.Name, p2.Environment, p2.Services["svc0"].Labels, p.Name, p.Environment, p.Services["svc0"].Labels)
+		}
 		return nil
 	})
 	if f != nil {
@@ -394,9 +410,7 @@ func c17Check(c *Ctx, cs c17Case) *Failure {
 }
 
 func mergedHas(cs c17Case) (string, bool) {
-	// WantVal "" with HasVal means either defined-empty or undefined; all generated values are non-empty,
-	// so empty means undefined.
-	return cs.WantVal, cs.WantVal != ""
+	return cs.WantVal, cs.Defined
 }
 
 func TestC17(t *testing.T) {
